@@ -273,3 +273,124 @@ Example C05_example_dot :
   vec_vec_dot ZO DotTT [1; 2]%Z [1]%Z = None /\
   xtx ZO [1; 2; 3; 4; 5; 6]%Z 3 = Some [35; 44; 44; 56]%Z /\ xtx ZO [1; 2; 3; 4; 5]%Z 3 = None.
 Proof. cbv [wf_matrix nr nc dat length]. repeat split; try lia; vm_compute; reflexivity. Qed.
+
+(** ** Rounding error of every entry on binary64 (extension)
+
+    Entry (i,j) is a PLAIN left fold of rounded additions from zero over the rounded products, k = 0 .. l-1 ([sumk], C05_matmul_spec).
+    Standard model of floating-point arithmetic (the carrier is the reals with an addition [rnd (a + b)] that commits a relative error
+    of at most [u] on a set [F] closed under it): a plain left fold from 0 of [n] terms [c'], each of which already carries one relative
+    error [u] with respect to the exact term [c], is within ((1+u)^(n+1) - 1) * Sigma |c_k| of Sigma c_k *)
+From Coq Require Import Reals Floats.
+From Compute Require Import Spec.Vops Proofs.C04Err Proofs.C04ErrF Proofs.C05Err.
+Theorem C05_plain_sum_error_perturbed_standard_model :
+  forall (u : R), (0 <= u)%R -> forall (F : R -> Prop) (rnd : R -> R),
+    F 0%R ->
+    (forall a b, F a -> F b -> F (rnd (a + b)%R) /\ (Rabs (rnd (a + b) - (a + b)) <= u * Rabs (a + b))%R) ->
+    forall c c' : list R, Forall F c' -> Forall2 (fun a a' => (Rabs (a' - a) <= u * Rabs a)%R) c c' ->
+      (Rabs (fold_left (Ops.add (RndO rnd)) c' 0 - Rsum c) <= ((1 + u) ^ S (length c) - 1) * Rsum (map Rabs c))%R.
+Proof. exact plain_sum_error_perturbed. Qed.
+
+(** binary64 ([B2Rf] the real value of a double, [finite] = neither infinite nor NaN; [sumk RO f l] is the real sum f 0 + .. + f (l-1)):
+    for EVERY conformable pair of flat arrays of doubles (every shape m x l by l x n, every transpose-flag combination), every entry
+    (i,j) of the result of [matmul] whose computed value is FINITE (no overflow in any product or partial sum of its accumulation:
+    finiteness of the entry forces all of them finite) and none of whose l exact products a_ik*b_kj underflows (each is 0 or at least
+    2^-1022, the smallest normal number, in magnitude):
+        | c_ij - Sigma_k a_ik b_kj |  <=  ((1 + 2^-53)^(l+1) - 1) * Sigma_k |a_ik b_kj|
+    for the exact operation order of the code.  (Exponent l+1 and not l: the standard model also charges the first addition 0 + a_i0*b_0j.)
+    When both operands are transposed the code computes (B.A)^T, i.e. the factors of every product commuted: binary64 multiplication
+    commutes bit for bit (C05_mul_commutes_binary64), so the statement is the same. *)
+Theorem C05_matmul_entry_error_binary64 :
+  forall (tbl : libm_table) (a b : list float) (ra rb : nat) (ta tb : bool) (ca cb m l n : nat) (c : list float),
+    dims (length a) (length b) ra rb ta tb = Some (ca, cb, m, l, n) ->
+    matmul (FO tbl) a b ra rb ta tb = Some c ->
+    forall i j, i < m -> j < n ->
+      finite (nth (i * n + j) c (Ops.zero (FO tbl))) ->
+      (forall k, k < l ->
+         (B2Rf (opA (FO tbl) a ca ta i k) * B2Rf (opB (FO tbl) b cb tb k j) = 0 \/
+          / 2 ^ 1022 <= Rabs (B2Rf (opA (FO tbl) a ca ta i k) * B2Rf (opB (FO tbl) b cb tb k j)))%R) ->
+      (Rabs (B2Rf (nth (i * n + j) c (Ops.zero (FO tbl)))
+             - sumk RO (fun k => B2Rf (opA (FO tbl) a ca ta i k) * B2Rf (opB (FO tbl) b cb tb k j)) l)
+       <= ((1 + / 2 ^ 53) ^ S l - 1)
+          * sumk RO (fun k => Rabs (B2Rf (opA (FO tbl) a ca ta i k) * B2Rf (opB (FO tbl) b cb tb k j))) l)%R.
+Proof. exact matmul_entry_error. Qed.
+
+(** the same bound for [matmul_blocked] with EVERY block size >= 1 (entry by entry the blocked loop nest performs the same sequence
+    of operations: C05_blocked_eq_unblocked) *)
+Theorem C05_matmul_blocked_entry_error_binary64 :
+  forall (tbl : libm_table) (a b : list float) (ra rb : nat) (ta tb : bool) (bs : nat) (ca cb m l n : nat) (c : list float),
+    1 <= bs ->
+    dims (length a) (length b) ra rb ta tb = Some (ca, cb, m, l, n) ->
+    matmul_blocked (FO tbl) a b ra rb ta tb bs = Some c ->
+    forall i j, i < m -> j < n ->
+      finite (nth (i * n + j) c (Ops.zero (FO tbl))) ->
+      (forall k, k < l ->
+         (B2Rf (opA (FO tbl) a ca ta i k) * B2Rf (opB (FO tbl) b cb tb k j) = 0 \/
+          / 2 ^ 1022 <= Rabs (B2Rf (opA (FO tbl) a ca ta i k) * B2Rf (opB (FO tbl) b cb tb k j)))%R) ->
+      (Rabs (B2Rf (nth (i * n + j) c (Ops.zero (FO tbl)))
+             - sumk RO (fun k => B2Rf (opA (FO tbl) a ca ta i k) * B2Rf (opB (FO tbl) b cb tb k j)) l)
+       <= ((1 + / 2 ^ 53) ^ S l - 1)
+          * sumk RO (fun k => Rabs (B2Rf (opA (FO tbl) a ca ta i k) * B2Rf (opB (FO tbl) b cb tb k j))) l)%R.
+Proof. exact matmul_blocked_entry_error. Qed.
+
+(** the [Dot] trait: the same bound for ANY array that is the product entry by entry in the sense of [is_product] (factors of each
+    term in either order), [is_matvec] or [is_vecmat] -- which is what every C05_dot_MM_* / C05_dot_MV_* / C05_dot_VM_* theorem
+    concludes of the result of the corresponding method; so every finite entry of every Matrix.Matrix, Matrix.Vector and
+    Vector.Matrix product none of whose products underflows obeys it (Vector.Vector is the 8-way unrolled [dot]: C04_dot_error_binary64) *)
+Theorem C05_is_product_entry_error_binary64 :
+  forall (tbl : libm_table) (swap : bool) (a b : list float) (ca cb : nat) (ta tb : bool) (m l n : nat) (c : list float),
+    is_product (FO tbl) swap a b ca cb ta tb m l n c ->
+    forall i j, i < m -> j < n ->
+      finite (nth (i * n + j) c (Ops.zero (FO tbl))) ->
+      (forall k, k < l ->
+         (B2Rf (opA (FO tbl) a ca ta i k) * B2Rf (opB (FO tbl) b cb tb k j) = 0 \/
+          / 2 ^ 1022 <= Rabs (B2Rf (opA (FO tbl) a ca ta i k) * B2Rf (opB (FO tbl) b cb tb k j)))%R) ->
+      (Rabs (B2Rf (nth (i * n + j) c (Ops.zero (FO tbl)))
+             - sumk RO (fun k => B2Rf (opA (FO tbl) a ca ta i k) * B2Rf (opB (FO tbl) b cb tb k j)) l)
+       <= ((1 + / 2 ^ 53) ^ S l - 1)
+          * sumk RO (fun k => Rabs (B2Rf (opA (FO tbl) a ca ta i k) * B2Rf (opB (FO tbl) b cb tb k j))) l)%R.
+Proof. exact is_product_entry_error. Qed.
+
+Theorem C05_is_matvec_entry_error_binary64 :
+  forall (tbl : libm_table) (a : list float) (ca : nat) (ta : bool) (v : list float) (m l : nat) (c : list float),
+    is_matvec (FO tbl) a ca ta v m l c ->
+    forall i, i < m ->
+      finite (nth i c (Ops.zero (FO tbl))) ->
+      (forall k, k < l ->
+         (B2Rf (opA (FO tbl) a ca ta i k) * B2Rf (nth k v (Ops.zero (FO tbl))) = 0 \/
+          / 2 ^ 1022 <= Rabs (B2Rf (opA (FO tbl) a ca ta i k) * B2Rf (nth k v (Ops.zero (FO tbl)))))%R) ->
+      (Rabs (B2Rf (nth i c (Ops.zero (FO tbl)))
+             - sumk RO (fun k => B2Rf (opA (FO tbl) a ca ta i k) * B2Rf (nth k v (Ops.zero (FO tbl)))) l)
+       <= ((1 + / 2 ^ 53) ^ S l - 1)
+          * sumk RO (fun k => Rabs (B2Rf (opA (FO tbl) a ca ta i k) * B2Rf (nth k v (Ops.zero (FO tbl))))) l)%R.
+Proof. exact is_matvec_entry_error. Qed.
+
+Theorem C05_is_vecmat_entry_error_binary64 :
+  forall (tbl : libm_table) (v b : list float) (cb : nat) (tb : bool) (l n : nat) (c : list float),
+    is_vecmat (FO tbl) v b cb tb l n c ->
+    forall j, j < n ->
+      finite (nth j c (Ops.zero (FO tbl))) ->
+      (forall k, k < l ->
+         (B2Rf (nth k v (Ops.zero (FO tbl))) * B2Rf (opB (FO tbl) b cb tb k j) = 0 \/
+          / 2 ^ 1022 <= Rabs (B2Rf (nth k v (Ops.zero (FO tbl))) * B2Rf (opB (FO tbl) b cb tb k j)))%R) ->
+      (Rabs (B2Rf (nth j c (Ops.zero (FO tbl)))
+             - sumk RO (fun k => B2Rf (nth k v (Ops.zero (FO tbl))) * B2Rf (opB (FO tbl) b cb tb k j)) l)
+       <= ((1 + / 2 ^ 53) ^ S l - 1)
+          * sumk RO (fun k => Rabs (B2Rf (nth k v (Ops.zero (FO tbl))) * B2Rf (opB (FO tbl) b cb tb k j))) l)%R.
+Proof. exact is_vecmat_entry_error. Qed.
+
+(** [sumk RO] is the real sum *)
+Theorem C05_sumk_R : forall (f : nat -> R) (l : nat), sumk RO f l = Rsum (map f (seq 0 l)).
+Proof. exact sumk_R. Qed.
+
+(** the hypotheses are satisfiable: a 2x3 by 3x2 product of doubles with inexact products and sums (0.1, 1/3), one zero product;
+    plain and blocked (block size 2) agree, entry (0,0) is finite and none of its three products underflows *)
+Example C05_example_entry_error :
+  let a := [1; 2; 0x1.999999999999ap-4; 4; -5; 6]%float in
+  let b := [0x1.5555555555555p-2; 0; 0; 1; 3; 0x1p-600]%float in
+  dims (length a) (length b) 2 3 false false = Some (3, 2, 2, 3, 2) /\
+  (exists c, matmul FO0 a b 2 3 false false = Some c /\ matmul_blocked FO0 a b 2 3 false false 2 = Some c /\
+             finite (nth (0 * 2 + 0) c (Ops.zero FO0))) /\
+  (forall k, k < 3 ->
+     (B2Rf (opA FO0 a 3 false 0 k) * B2Rf (opB FO0 b 2 false k 0) = 0 \/
+      / 2 ^ 1022 <= Rabs (B2Rf (opA FO0 a 3 false 0 k) * B2Rf (opB FO0 b 2 false k 0)))%R).
+Proof. exact matmul_error_example. Qed.
